@@ -863,14 +863,14 @@ NOTE = "Trusted: Lean kernel; axioms propext/Classical.choice/Quot.sound only (a
 PENDING = " The full-strength Lean theorem of DESIGN.md §6 for this property is not (yet) proved: the claim rests on the executable model + correspondence + oracle, and on the listed partial theorems; hence category 'other'."
 
 MANIFEST_TEXT = {
-    "C01": {"text": "Lean theorems: the model of parse(), of both name checkers and of every script of public cursor calls returns Ok or Err for all byte strings / offsets / increments (no panic, no fuel exhaustion), and a successful name check stays inside the buffer. " + CORR,
+    "C01": {"text": "Lean theorems: the model of parse(), of both name checkers and of every script of public cursor calls returns Ok or Err for all byte strings / offsets / increments (no panic, no fuel exhaustion), and a successful name check stays inside the buffer.  The whole validator of the current source (DNSSector::new, parse, parse_question, parse_rr, parse_opt, cursor primitives, loaders, both name walkers) is translated to Lean from /repo's text on every run (rs2lean.py) and proved equal to the model (Tie/Parse.lean, Tie/Name.lean, Tie/Sector.lean): source_parse_total states totality, with the input handed back as Some(packet), about the translated code itself." + CORR,
             "note": NOTE + " Termination of the real loops is inferred from the model's termination proof plus outcome and step-count agreement.",
-            "technique": "Lean 4 proof (induction on fuel, cursor invariant) + model/implementation correspondence"},
-    "C02": {"text": "Lean theorem for all byte strings: the model's parse succeeds if and only if the declarative policy WF holds (names by inductive relations with the strictly-backward / 16-pointer / no-root-target discipline, label and name limits, forbidden characters; pointer-free DNAME targets; per-type rdata shapes; root-named single OPT in the additional section with options tiling its data; QR gating; one IN question; nothing left over) - both directions, by induction on fuel / on derivations. Verdicts of the real parser are compared in both directions with the model and with an independent executable statement of the policy (Python recogniser) on structured, single-point-damaged, boundary (incl. re-entering names, pointer ladders) and arbitrary packets.",
-            "note": NOTE, "technique": "Lean 4 proof of the name-walker iff + correspondence + independent recogniser"},
+            "technique": "Lean 4 proof (induction on fuel, cursor invariant; validator translated from the source by rs2lean.py and proved equal to the model) + model/implementation correspondence"},
+    "C02": {"text": "Lean theorem for all byte strings: the model's parse succeeds if and only if the declarative policy WF holds (names by inductive relations with the strictly-backward / 16-pointer / no-root-target discipline, label and name limits, forbidden characters; pointer-free DNAME targets; per-type rdata shapes; root-named single OPT in the additional section with options tiling its data; QR gating; one IN question; nothing left over) - both directions, by induction on fuel / on derivations. Verdicts of the real parser are compared in both directions with the model and with an independent executable statement of the policy (Python recogniser) on structured, single-point-damaged, boundary (incl. re-entering names, pointer ladders) and arbitrary packets. The validator of the current source is translated to Lean from /repo's text on every run (rs2lean.py) and proved equal to the model: source_parse_ok_iff_wf, source_name_ok_iff_valid, source_plain_name_ok_iff state the equivalence about the translated code itself.",
+            "note": NOTE, "technique": "Lean 4 proof of parse-ok iff well-formed (name-walker iff, per-type rules, option tiling), stated also about the validator translated from the source by rs2lean.py (Tie/Parse.lean) + correspondence + independent recogniser"},
     "C03": {"text": "Proved for every accepted packet (via the C02 equivalence and the decoding lemmas copyUncompressedName_valid / rawNameToStr_valid / skipName_valid): the question walk yields exactly the question; the answer, authority and additional walks yield exactly the records of the policy relation in wire order, with OPT included and with OPT skipped wherever it sits; on each record the owner name (wire and lowercase dotted form), type, class, TTL, data length, raw data and address accessors return the values at the record's positions and never panic; the EDNS option walk yields exactly the options tiling the OPT data (nothing without OPT); the section accessor reports the record's section. Model of the four iterators and all accessors; on every generated accepted packet the real walks/accessors, the model's and the reference decoder's RFC 1035 reading agree (OPT absent/first/middle/last, chained pointers, pointers into rdata).",
             "note": NOTE, "technique": "Lean 4 proof (walk/decoding lemmas over the policy derivation) + model/implementation correspondence + reference decoder oracle"},
-    "C04": {"text": "Lean theorems for every accepted packet: transaction id, opcode, rcode, response bit, each bit of the 32-bit flag word (opcode/rcode masked, EDNS flags in the upper half), DNSSEC indicator (AD for responses, DO for queries), question in raw / raw-without-root / lowercase-text form with type and class (cache empty and filled), and EDNS start, option count, extended rcode, version, flags and payload size equal the values at the positions the declarative policy assigns - those of the single OPT record, or none/0/512 without one. Real getters compared with the model and with values decoded independently from the bytes by div/mod.",
+    "C04": {"text": "Lean theorems for every accepted packet: transaction id, opcode, rcode, response bit, each bit of the 32-bit flag word (opcode/rcode masked, EDNS flags in the upper half), DNSSEC indicator (AD for responses, DO for queries), question in raw / raw-without-root / lowercase-text form with type and class (cache empty and filled), and EDNS start, option count, extended rcode, version, flags and payload size equal the values at the positions the declarative policy assigns - those of the single OPT record, or none/0/512 without one. Real getters compared with the model and with values decoded independently from the bytes by div/mod. The header getters are translated from /repo's text on every run and proved equal to the model's (Tie/Header.lean): source_header_summary.",
             "note": NOTE, "technique": "Lean 4 proof (EDNS state tracking through the validator, bit lemmas, decoding lemmas) + model/implementation correspondence + div/mod oracle"},
     "C05": {"text": "Lean theorems for every accepted packet: decompression succeeds; its output is the header followed by the canonical pointer-free form of the question and of every record in wire order (same labels in every owner and NS/CNAME/PTR/MX/SOA name, fixed fields and all other data incl. OPT verbatim, data length recomputed); the output satisfies the acceptance policy (hence is accepted), its records have the same types and are their own canonical forms (no compression pointer in any name), a second decompression returns it unchanged, and every record boundary / the question / the end of the input is carried to the corresponding boundary of the output. Real output byte-identical to the model's on every generated accepted packet and boundary; the reference decoder compares the decoded messages.",
             "note": NOTE, "technique": "Lean 4 proof (walks as folds, canonical-form relation, translation invariance of the policy under copying, determinism of layouts) + model/implementation correspondence + reference decoder oracle"},
@@ -886,8 +886,8 @@ MANIFEST_TEXT = {
             "note": NOTE, "technique": 'Lean 4 proof (order of check and modify in the model of each mutator) + step-wise correspondence + abstract-message oracle'},
     "C11": {"text": "Lean theorems: the cursor protocol on a pointer-free packet object (void cursor restarts the section with the current count, live cursor advances, delete = shrink by the record length + void the cursor + decrement the count + clear the section start at zero) refines an abstract walk-and-delete machine on the list of the section's records, for the three record sections, both public walks and every stream of choices; the list machine terminates ((n+1)^2+n+1 steps), removes exactly the chosen records, never yields a deleted record again, yields every survivor, leaves the survivors in order; the object stays a plain object (count = number of records, emptied section absent, bytes accepted, section starts as a fresh parse reports them), other sections/question/header fields untouched; a second delete reports VoidRecord and changes nothing; the first deletion on a still-compressed object decompresses, carries the cursor and removes exactly that record. The run started on a parsed (possibly compressed) packet is composed from the two phases (walk_delete_parsed). The public next() walk over an additional section holding OPT is proved on plain objects (walk_delete_skipping_opt) and on freshly parsed, possibly compressed packets (walk_delete_parsed_skipping_opt). Question section (KF1): correspondence only. Exhaustive deletion walks (every subset of sections of size 0..5, four sections, two layouts, OPT absent/first/last) compare the real iterators with the model and the walk oracle.",
             "note": NOTE, "technique": "Lean 4 proof (piece-list representation of pointer-free objects, refinement of the cursor protocol to a list machine, list lemmas) + exhaustive small-scope correspondence + walk oracle"},
-    "C12": {"text": "Lean theorems for all header words and all arguments: set_flags changes only bytes 2-3, keeps opcode and rcode (div/mod by position), sets each of QR AA TC RD RA Z AD CD to the argument's bit and ignores the argument's upper half; set_opcode / set_rcode / set_response / set_tid change only their field; every getter returns the stored field. Real behaviour compared with the model and with the frame condition computed from RFC 1035 field positions, exhaustively over all 65536 flag words in the thorough tier.",
-            "note": NOTE, "technique": "exhaustive correspondence over flag words + div/mod oracle"},
+    "C12": {"text": "Lean theorems for all header words and all arguments: set_flags changes only bytes 2-3, keeps opcode and rcode (div/mod by position), sets each of QR AA TC RD RA Z AD CD to the argument's bit and ignores the argument's upper half; set_opcode / set_rcode / set_response / set_tid change only their field; every getter returns the stored field. Real behaviour compared with the model and with the frame condition computed from RFC 1035 field positions, exhaustively over all 65536 flag words in the thorough tier. All eleven header getters/setters are translated from /repo's text on every run (rs2lean.py) and proved equal to the model's (Tie/Header.lean); source_set_flags_frame ... source_getters state the frame conditions about the translated code itself.",
+            "note": NOTE, "technique": "Lean 4 proof (bitwise frame conditions for every setter and getter, stated also about the functions translated from the source by rs2lean.py) + exhaustive correspondence over flag words + div/mod oracle"},
     "C13": {"text": "Lean theorems: the record-text grammar is stated declaratively on the text (Spec/RecordText.lean: B* owner B+ ttl B+ IN B+ TYPE B+ rdata B*, host-name labels, decimal numerals with bounds, dotted quads, IPv6 groups with '::', quoted strings with \\DDD escapes, hex digests) together with the RFC 1035 wire form each text stands for; synth t = Ok rr holds exactly for the pairs of that relation (both directions), so excluded text (missing or surplus fields, out-of-range numbers, malformed addresses, unbalanced quotes, odd or non-hex digests) yields an error; synthesis is total; anything returned is a well-formed class-IN record wherever it is placed; inserting it into the answer/authority/additional section of a parsed packet leaves bytes that satisfy the acceptance policy. Real synthesis compared with the model and with an independent Python synthesiser on grammar-derived, damaged and arbitrary texts, every numeric and length limit of the grammar from both sides (DS digests around the 16-bit data length, TXT, names, labels, TTL, preference), and the result inserted into valid packets.",
             "note": NOTE + " chomp1 combinator semantics read from the vendored source; Ipv6Addr::from_str modelled.", "technique": "Lean 4 proof (token-level iff lemmas for every parser of the recogniser, grammar relation, piece/assembly lemmas for insertion) + model/implementation correspondence + reference synthesiser oracle"},
     "C14": {"text": "Lean theorems for all byte strings and zones: the index-based loop of copy_raw_name_from_str is a left-to-right scan; it accepts exactly dot-separated labels of 1..62 dot-free bytes <= 128 (optional final dot; '.' and '' give the root) whose result fits 253 bytes (so every LDH/underscore name within the limits), returns the length-prefixed encoding of exactly those labels followed by 0 or the zone, rejects an empty label, a leading dot, a dot-free run of 63+, a text or result over 253; the result is a valid pointer-free name (labels 1..63, total <= 255) and the name accessor's text for it is the input without its final dot. Real conversion compared with the model exhaustively over a 7-symbol alphabet up to length 4 (quick) / 6 (thorough) with and without zone, boundary lengths; every accepted name is given to a record and read back.",
@@ -898,8 +898,8 @@ MANIFEST_TEXT = {
             "note": NOTE + " thread_local! semantics assumed, probed by the schedules.", "technique": "Lean proof by induction on histories + exhaustive schedule correspondence"},
     "C17": {"text": "The model's functions are pure by construction; the real calls are executed alone, back to back and concurrently, and every output is compared byte for byte with the others and with the model's.",
             "note": NOTE, "technique": "history-based correspondence (alone / sequential / concurrent)"},
-    "C18": {"text": "Lean theorems: the instrumented validator model (one step per name-walk iteration, record and option, also on failing paths) spends at most 80*len+1200 steps on every byte string (potential-function induction: <= 822 + consumed/4 steps per record, >= 11 bytes per accepted record), and erasing the counter gives back parse. The real step counter (cfg-guarded hook) must equal the model's count on every case, including adversarial families (pointer ladders, 17-deep chains x 400 records, 16000 options, lying counts).",
-            "note": NOTE, "technique": "step-count correspondence via the verification hook + bound oracle"},
+    "C18": {"text": "Lean theorems: the instrumented validator model (one step per name-walk iteration, record and option, also on failing paths) spends at most 80*len+1200 steps on every byte string (potential-function induction: <= 822 + consumed/4 steps per record, >= 11 bytes per accepted record), and erasing the counter gives back parse. The real step counter (cfg-guarded hook) must equal the model's count on every case, including adversarial families (pointer ladders, 17-deep chains x 400 records, 16000 options, lying counts). The counted validator is tied to the validator translated from /repo's text on every run (source_erasure, source_walkers).",
+            "note": NOTE, "technique": "Lean 4 proof (potential-function bound on the instrumented model, erasure, validator translated from the source by rs2lean.py and proved equal to the model) + step-count correspondence via the verification hook + bound oracle"},
 }
 for _p, _spec in PROPS.items():
     if not _spec.get("explanation"):
